@@ -20,8 +20,8 @@ Lemma frees_app a b : frees (a ++ b) = frees a ++ frees b. Proof. apply flat_map
 
 (* one callback: the shapes of its output *)
 Lemma device_cb_shapes p drv rv got :
-  let o := snd (device_cb p drv rv got) in
-  let p' := fst (device_cb p drv rv got) in
+  let o := snd (device_cb true p drv rv got) in
+  let p' := fst (device_cb true p drv rv got) in
   (exists m, o = [DoGot m; DoSend m] /\ dp_st p = DRecv /\ got = Some m /\ p' = mkDP DSend (Some m)) \/
   (exists m e, o = [DoGot m; DoFree m; DoStop e] /\ dp_st p = DRecv /\ got = Some m /\ dp_st p' = DFini) \/
   (gots o = [] /\ sents o = [] /\ (dp_st p = DFini -> dp_st p' = DFini) /\
@@ -29,8 +29,8 @@ Lemma device_cb_shapes p drv rv got :
 Proof.
   destruct p as [st msg]. unfold device_cb. cbn [dp_st dp_msg].
   destruct st, (N.eqb rv 0) eqn:Erv, (N.eqb drv 0) eqn:Ed, got as [g|], msg as [q|];
-    cbn [negb fst snd app dp_st dp_msg]; rewrite ?Erv, ?Ed;
-    cbn [negb fst snd app dp_st dp_msg gots sents frees flat_map];
+    cbn [negb orb fst snd app dp_st dp_msg]; rewrite ?Erv, ?Ed;
+    cbn [negb orb fst snd app dp_st dp_msg gots sents frees flat_map];
     first [ left; eexists; repeat split; reflexivity
           | right; left; do 2 eexists; repeat split; reflexivity
           | right; right; split; [reflexivity|split; [reflexivity|split;
@@ -39,12 +39,12 @@ Proof.
 Qed.
 
 (* once finished a path stays finished and neither receives nor sends nor frees *)
-Lemma device_fini_quiet : forall evs p o p', dp_st p = DFini -> device_run p evs = (p', o) ->
+Lemma device_fini_quiet : forall evs p o p', dp_st p = DFini -> device_run true p evs = (p', o) ->
   gots o = [] /\ sents o = [] /\ frees o = [].
 Proof.
   induction evs as [|[[drv rv] got] r IH]; intros p o p' Hp H; cbn [device_run] in H.
   - inversion H; subst. auto.
-  - destruct (device_cb p drv rv got) as [p1 o1] eqn:E1. destruct (device_run p1 r) as [p2 o2] eqn:E2.
+  - destruct (device_cb true p drv rv got) as [p1 o1] eqn:E1. destruct (device_run true p1 r) as [p2 o2] eqn:E2.
     injection H as <- <-. pose proof (device_cb_shapes p drv rv got) as S. rewrite E1 in S. cbn [fst snd] in S.
     destruct S as [(m & _ & St & _)|[(m & e & _ & St & _)|(G & Sn & Fi & Fr)]]; try congruence.
     specialize (IH p1 o2 p2 (Fi Hp) E2). destruct IH as (A & B & C).
@@ -55,12 +55,12 @@ Qed.
 (* every message a path accepts from the source socket is handed to the destination socket,
    the same message (header and body), in order; the only exception is the last accepted one
    when the device is being shut down, and that one is freed *)
-Lemma device_forwards : forall evs p p' o, device_run p evs = (p', o) ->
+Lemma device_forwards : forall evs p p' o, device_run true p evs = (p', o) ->
   exists rest, gots o = sents o ++ rest /\ (rest = [] \/ exists m, rest = [m] /\ In m (frees o)).
 Proof.
   induction evs as [|[[drv rv] got] r IH]; intros p p' o H; cbn [device_run] in H.
   - inversion H; subst. exists []. auto.
-  - destruct (device_cb p drv rv got) as [p1 o1] eqn:E1. destruct (device_run p1 r) as [p2 o2] eqn:E2.
+  - destruct (device_cb true p drv rv got) as [p1 o1] eqn:E1. destruct (device_run true p1 r) as [p2 o2] eqn:E2.
     injection H as <- <-. pose proof (device_cb_shapes p drv rv got) as S. rewrite E1 in S. cbn [fst snd] in S.
     destruct S as [(m & Eo & _)|[(m & e & Eo & _ & _ & Fi)|(G & Sn & _)]].
     + destruct (IH _ _ _ E2) as (rest & A & B). exists rest. subst o1.
@@ -73,6 +73,13 @@ Proof.
       rewrite gots_app, sents_app, frees_app, G, Sn, A. split; [reflexivity|].
       destruct B as [B|(x & B & C)]; [auto|]. right. exists x. split; [exact B|]. apply in_or_app. auto.
 Qed.
+
+(* the pinned form (before fix f044c32): a receive that completed and was then aborted leaves its
+   message attached; the callback sees the error in the RECV state and frees nothing *)
+Lemma device_pinned_leak m :
+  let o := snd (device_run false (fst device_start) [(0%N, 20%N, Some m)]) in
+  gots o = [m] /\ sents o = [] /\ frees o = [].
+Proof. cbn. auto. Qed.
 
 (* ====================================================================== one device *)
 Section Family.
